@@ -156,8 +156,9 @@ def cleanup_slots():
 
 def detect_scratch(mdir, ids, jobs=4, tier="quick"):
     """Like detect, but never touches /repo's working tree: a scratch worktree of /repo gets the patch,
-    a scratch copy of the committed machinery (git archive of /verif HEAD, so edits in progress do
-    not leak in) is pointed at it, results go to the scratch copy. Used to evaluate many seeded
+    a scratch copy of the committed machinery (git archive of /verif HEAD - or of the commit named
+    by VERIF_REV, to measure a first pass against the machinery as it stood when a round of changes
+    was commissioned - so edits in progress do not leak in) is pointed at it, results go to the scratch copy. Used to evaluate many seeded
     changes in parallel; call cleanup_slots() at the end."""
     mdir = os.path.abspath(mdir)
     base = _get_slot()
@@ -174,7 +175,7 @@ def detect_scratch(mdir, ids, jobs=4, tier="quick"):
             print("patch does not apply:\n" + out)
             return None
         os.makedirs(hz, exist_ok=True)
-        rc, out = sh(["bash", "-c", "git -C %s archive HEAD check harness known_findings.json | tar -x -C %s" % (VERIF, hz)])
+        rc, out = sh(["bash", "-c", "git -C %s archive %s check harness known_findings.json | tar -x -C %s" % (VERIF, os.environ.get("VERIF_REV", "HEAD"), hz)])
         if rc != 0:
             print(out)
             return None
